@@ -842,7 +842,7 @@ func TestC21(t *testing.T) {
 			for _, m := range []mode{ntn, ntc, ntcPipe} {
 				for _, z := range []bool{false, true} {
 					for _, l := range []int{1, 2, 3} {
-						if l != 2 && (len(sc) > 2 || m == ntcPipe) {
+						if l != 2 && (len(sc) > 2 || m == ntcPipe || !thorough) {
 							continue
 						}
 						add(params{mode: m, limit: l, script: sc, policy: "eager", stopAt: len(sc), slow: -1, slot0: z, lib: true}, 0, 0, b0)
